@@ -1,5 +1,125 @@
 import AiocoapModel.Basic.Bytes
-/-! Line protocol for C13 (not built yet). -/
+import AiocoapModel.Oscore.Persist
+/-! Line protocol for the persistence model (C13).
+
+`C13 <start> <limit> <size> <disk> <event>*`
+  disk    initial `sequence.json`: `-` (absent) | `<next>:u` | `<next>:n` | `<next>:<index>:<bitfield>`
+  event   `L<echo>` load · `P` protect · `R<seq>:<0|1>:<echo|->` request arrives ·
+          `S` clean shutdown · `K` kill · `M` print the memory;
+          `P`, `R…`, `S` take a suffix `!<j>`: the process dies inside the operation after `j`
+          file-system effects of its `_store`
+→ one token per event: `i<n>` issued · `x` exhausted · `a` assertion · `As`/`Ae` accepted (by
+  strike / by Echo recovery) · `R` `E` `P` refused · `l` loaded · `k` locked · `s` shut down ·
+  `z` killed · `d` died · `-` no process; followed by `@<dir>` when the directory changed;
+  `M` → `m:<ssn>:<persisted>:<chunk>:<0|1>:<window>` or `m:-`.
+  dir = `<sequence.json>;<temp>,<temp>…` (newest first, `e` = empty temp file)
+-/
 namespace Aiocoap
-def handleC13 (_args : List String) : String := "out-of-model"
+open Aiocoap.Oscore Aiocoap.Oscore.Persist
+
+namespace C13
+
+def showReceived : Received → String
+  | .unknown => "u"
+  | .window none => "n"
+  | .window (some (i, b)) => s!"{i}:{b}"
+
+def showSeqFile (f : SeqFile) : String := s!"{f.nextToSend}:{showReceived f.received}"
+
+def showDir (d : Dir) : String :=
+  (match d.seq with | none => "-" | some f => showSeqFile f) ++ ";" ++
+  ",".intercalate (d.temps.map fun t => match t with | none => "e" | some f => showSeqFile f)
+
+def showMem : Option Mem → String
+  | none => "m:-"
+  | some m =>
+    s!"m:{m.ssn}:{m.persisted}:{m.chunk}:{if m.windowPersisted then 1 else 0}:" ++
+      (match m.window with | none => "u" | some w => s!"{w.index}:{w.bitfield}")
+
+def showOut : Out → String
+  | .issued n => s!"i{n}"
+  | .exhausted => "x"
+  | .assertion => "a"
+  | .accepted _ true => "Ae"
+  | .accepted _ false => "As"
+  | .refused .accepted => "?"          -- not produced by the model
+  | .refused .replayError => "R"
+  | .refused .replayEcho => "E"
+  | .refused .protectionInvalid => "P"
+  | .loaded => "l"
+  | .locked => "k"
+  | .shutdown => "s"
+  | .killed => "z"
+  | .died => "d"
+  | .dead => "-"
+
+def parseDisk (s : String) : Option (Option SeqFile) :=
+  match s.splitOn ":" with
+  | ["-"] => some none
+  | [n, "u"] => n.toNat?.map fun n => some { nextToSend := n, received := .unknown }
+  | [n, "n"] => n.toNat?.map fun n => some { nextToSend := n, received := .window none }
+  | [n, i, b] => do
+    let n ← n.toNat?
+    let i ← i.toNat?
+    let b ← b.toNat?
+    pure (some { nextToSend := n, received := .window (some (i, b)) })
+  | _ => none
+
+/-- `X` or `X!j` → (X, crash) -/
+def splitCrash (s : String) : Option (String × Option Nat) :=
+  match s.splitOn "!" with
+  | [x] => some (x, none)
+  | [x, j] => j.toNat?.map fun j => (x, some j)
+  | _ => none
+
+def parseArrival (s : String) : Option Arrival :=
+  match s.splitOn ":" with
+  | [q, a, e] => do
+    let q ← q.toNat?
+    let a ← (if a = "1" then some true else if a = "0" then some false else none)
+    let e ← (if e = "-" then some none else e.toNat?.map some)
+    pure { seq := q, authentic := a, echo := e }
+  | _ => none
+
+/-- `none`: the memory query `M`; `some ev` an event of the model -/
+def parseEv (tok : String) : Option (Option Ev) := do
+  let (x, crash) ← splitCrash tok
+  match x.toList with
+  | ['M'] => if crash.isNone then some none else none
+  | ['K'] => if crash.isNone then some (some .kill) else none
+  | ['P'] => some (some (.protect crash))
+  | ['S'] => some (some (.cleanShutdown crash))
+  | 'L' :: rest =>
+    if crash.isSome then none else (String.ofList rest).toNat?.map fun e => some (.load e)
+  | 'R' :: rest => (parseArrival (String.ofList rest)).map fun a => some (.recv a crash)
+  | _ => none
+
+def runTokens (cfg : Cfg) (s : State) : List String → Option (List String)
+  | [] => some []
+  | tok :: toks => do
+    match ← parseEv tok with
+    | none =>
+      let rest ← runTokens cfg s toks
+      pure (showMem s.mem :: rest)
+    | some ev =>
+      let r := step cfg s ev
+      let rest ← runTokens cfg r.1 toks
+      let o := showOut r.2
+      pure ((if r.1.dir = s.dir then o else o ++ "@" ++ showDir r.1.dir) :: rest)
+
+end C13
+
+def handleC13 (args : List String) : String :=
+  match args with
+  | start :: limit :: size :: disk :: evs =>
+    match start.toNat?, limit.toNat?, size.toNat?, C13.parseDisk disk with
+    | some start, some limit, some size, some seq =>
+      -- a window of size 0 trips an assertion in strike_out (as for C12)
+      if size = 0 then "out-of-model" else
+      match C13.runTokens { start, limit, size } { dir := { seq, temps := [] }, mem := none } evs with
+      | some out => " ".intercalate out
+      | none => "bad-op"
+    | _, _, _, _ => "bad-op"
+  | _ => "bad-op"
+
 end Aiocoap
